@@ -104,18 +104,21 @@ def setScalar (f : Elem) (key value : Str) : Elem :=
   else if key = Xfcc.keyBy then { f with by_ := some value }
   else f
 
+/-- body of `for pair in pairs:` from `eq_idx = pair.find("=")` on -/
+def pairBody (unq : Str → Str) (f : Elem) (pair : Str) : Elem :=
+  match cutAt Xfcc.kvSep pair with
+  | none => f
+  | some (k, v) =>
+    let key := lowerKey (strip k)
+    let value := dequote (strip v)
+    let value := if key ∈ Xfcc.unquoteKeys then unq value else value
+    if key = Xfcc.listKey then { f with dns := f.dns ++ [value] }
+    else setScalar f key value
+
 /-- body of `for pair in pairs:` -/
 def procPair (unq : Str → Str) (f : Elem) (pair : Str) : Elem :=
   let pair := strip pair
-  if pair = [] then f
-  else match cutAt Xfcc.kvSep pair with
-    | none => f
-    | some (k, v) =>
-      let key := lowerKey (strip k)
-      let value := dequote (strip v)
-      let value := if key ∈ Xfcc.unquoteKeys then unq value else value
-      if key = Xfcc.listKey then { f with dns := f.dns ++ [value] }
-      else setScalar f key value
+  if pair = [] then f else pairBody unq f pair
 
 /-- body of `for raw_element in …:`; `none` is `continue` -/
 def parseElem (unq : Str → Str) (raw : Str) : Option Elem :=
